@@ -39,99 +39,96 @@ Print Assumptions C03_own_moves_neutral.
    regenerated coq/gen/Facts_Signers.v that these fields are returned by the Go Signers() of that message type. *)
 Theorem C03_debit_needs_authority_send : forall known cur from to v payer fp fee ops, 0 <= fee -> effect_send known cur from to v = Some ops ->
   takes_only_from (ops ++ fee_ops payer fp fee) [from; payer].
-Proof. intros known cur from to v payer fp fee ops Hfee. intros. edestruct (send_facts payer fp fee Hfee) as [_ [_ C]]; eauto. Qed.
+Proof. exact send_authority. Qed.
 Print Assumptions C03_debit_needs_authority_send.
 Theorem C03_debit_needs_authority_sendpool : forall known cur from pool v payer fp fee ops, 0 <= fee -> effect_sendpool known cur from pool v = Some ops ->
   takes_only_from (ops ++ fee_ops payer fp fee) [from; payer].
-Proof. intros known cur from pool v payer fp fee ops Hfee. intros. edestruct (sendpool_facts payer fp fee Hfee) as [_ [_ C]]; eauto. Qed.
+Proof. exact sendpool_authority. Qed.
 Print Assumptions C03_debit_needs_authority_sendpool.
 Theorem C03_debit_needs_authority_stake : forall known cur staker val v payer fp fee ops, 0 <= fee -> effect_stake known cur staker val v = Some ops ->
   takes_only_from (ops ++ fee_ops payer fp fee) [staker; payer].
-Proof. intros known cur staker val v payer fp fee ops Hfee. intros. edestruct (stake_facts payer fp fee Hfee) as [_ [_ C]]; eauto. Qed.
+Proof. exact stake_authority. Qed.
 Print Assumptions C03_debit_needs_authority_stake.
 Theorem C03_debit_needs_authority_unstake : forall known cur staker val v h payer fp fee ops, 0 <= fee -> effect_unstake known cur staker val v h = Some ops ->
   takes_only_from (ops ++ fee_ops payer fp fee) [staker; payer].
-Proof. intros known cur staker val v h payer fp fee ops Hfee. intros. edestruct (unstake_facts payer fp fee Hfee) as [_ [_ C]]; eauto. Qed.
+Proof. exact unstake_authority. Qed.
 Print Assumptions C03_debit_needs_authority_unstake.
 Theorem C03_debit_needs_authority_withdraw : forall known cur staker v payer fp fee ops, 0 <= fee -> effect_withdraw known cur staker v = Some ops ->
   takes_only_from (ops ++ fee_ops payer fp fee) [staker; payer].
-Proof. intros known cur staker v payer fp fee ops Hfee. intros. edestruct (withdraw_facts payer fp fee Hfee) as [_ [_ C]]; eauto. Qed.
+Proof. exact withdraw_authority. Qed.
 Print Assumptions C03_debit_needs_authority_withdraw.
 Theorem C03_debit_needs_authority_delegate : forall known cur u pool v payer fp fee ops, 0 <= fee -> effect_delegate known cur u pool v = Some ops ->
   takes_only_from (ops ++ fee_ops payer fp fee) [u; payer].
-Proof. intros known cur u pool v payer fp fee ops Hfee. intros. edestruct (delegate_facts payer fp fee Hfee) as [_ [_ C]]; eauto. Qed.
+Proof. exact delegate_authority. Qed.
 Print Assumptions C03_debit_needs_authority_delegate.
 Theorem C03_debit_needs_authority_undelegate : forall known cur u pool v h payer fp fee ops, 0 <= fee -> effect_undelegate known cur u pool v h = Some ops ->
   takes_only_from (ops ++ fee_ops payer fp fee) [u; pool; payer].
-Proof. intros known cur u pool v h payer fp fee ops Hfee. intros. edestruct (undelegate_facts payer fp fee Hfee) as [_ [_ C]]; eauto. Qed.
+Proof. exact undelegate_authority. Qed.
 Print Assumptions C03_debit_needs_authority_undelegate.
 Theorem C03_debit_needs_authority_rewards_withdraw : forall known cur u v h payer fp fee ops, 0 <= fee -> effect_rewards_withdraw known cur u v h = Some ops ->
   takes_only_from (ops ++ fee_ops payer fp fee) [u; payer].
-Proof. intros known cur u v h payer fp fee ops Hfee. intros. edestruct (rewards_withdraw_facts payer fp fee Hfee) as [_ [_ C]]; eauto. Qed.
+Proof. exact rewards_withdraw_authority. Qed.
 Print Assumptions C03_debit_needs_authority_rewards_withdraw.
 Theorem C03_debit_needs_authority_reinvest : forall known cur u pool v payer fp fee ops, 0 <= fee -> effect_reinvest known cur u pool v = Some ops ->
   takes_only_from (ops ++ fee_ops payer fp fee) [u; payer].
-Proof. intros known cur u pool v payer fp fee ops Hfee. intros. edestruct (reinvest_facts payer fp fee Hfee) as [_ [_ C]]; eauto. Qed.
+Proof. exact reinvest_authority. Qed.
 Print Assumptions C03_debit_needs_authority_reinvest.
 Theorem C03_debit_needs_authority_proposal_create : forall known cur p prop v init goal payer fp fee ops, 0 <= fee -> 0 <= init -> effect_proposal_create known cur p prop v init goal = Some ops ->
   takes_only_from (ops ++ fee_ops payer fp fee) [p; payer].
-Proof. intros known cur p prop v init goal payer fp fee ops Hfee. intros. edestruct (proposal_create_facts payer fp fee Hfee) as [_ [_ C]]; eauto. Qed.
+Proof. exact proposal_create_authority. Qed.
 Print Assumptions C03_debit_needs_authority_proposal_create.
+Theorem C03_debit_needs_authority_proposal_fund : forall known cur f prop v payer fp fee ops, 0 <= fee -> effect_proposal_fund known cur f prop v = Some ops ->
+  takes_only_from (ops ++ fee_ops payer fp fee) [f; payer].
+Proof. exact proposal_fund_authority. Qed.
+Print Assumptions C03_debit_needs_authority_proposal_fund.
+Theorem C03_debit_needs_authority_proposal_withdraw : forall known cur f b prop v payer fp fee ops, 0 <= fee -> effect_proposal_withdraw known cur f b prop v = Some ops ->
+  takes_only_from (ops ++ fee_ops payer fp fee) [f; payer].
+Proof. exact proposal_withdraw_authority. Qed.
+Print Assumptions C03_debit_needs_authority_proposal_withdraw.
 Theorem C03_debit_needs_authority_domain_create : forall known cur o fp v base payer fee ops, 0 <= fee -> 0 <= base -> effect_domain_create known cur o fp v base = Some ops ->
   takes_only_from (ops ++ fee_ops payer fp fee) [o; payer].
-Proof. intros known cur o fp v base payer fee ops Hfee. intros. edestruct (domain_create_facts payer fp fee Hfee) as [_ [_ C]]; eauto. Qed.
+Proof. exact domain_create_authority. Qed.
 Print Assumptions C03_debit_needs_authority_domain_create.
 Theorem C03_debit_needs_authority_domain_renew : forall known cur o fp v pb payer fee ops, 0 <= fee -> 0 <= pb -> effect_domain_renew known cur o fp v pb = Some ops ->
   takes_only_from (ops ++ fee_ops payer fp fee) [o; payer].
-Proof. intros known cur o fp v pb payer fee ops Hfee. intros. edestruct (domain_renew_facts payer fp fee Hfee) as [_ [_ C]]; eauto. Qed.
+Proof. exact domain_renew_authority. Qed.
 Print Assumptions C03_debit_needs_authority_domain_renew.
 Theorem C03_debit_needs_authority_domain_purchase : forall known cur buyer fp offer on_sale sale seller base payer fee ops, 0 <= fee -> 0 <= sale -> 0 <= base -> effect_domain_purchase known cur buyer fp offer on_sale sale seller base = Some ops ->
   takes_only_from (ops ++ fee_ops payer fp fee) [buyer; payer].
-Proof.
-  intros known cur buyer fp offer on_sale sale seller base payer fee ops Hfee Hs Hb H.
-  destruct (domain_purchase_facts payer fp fee Hfee known cur buyer offer on_sale sale seller base ops Hs Hb H) as [A [B C]]. exact C.
-Qed.
+Proof. exact domain_purchase_authority. Qed.
 Print Assumptions C03_debit_needs_authority_domain_purchase.
 Theorem C03_debit_needs_authority_domain_send : forall known cur from benef v payer fp fee ops, 0 <= fee -> effect_domain_send known cur from benef v = Some ops ->
   takes_only_from (ops ++ fee_ops payer fp fee) [from; payer].
-Proof. intros known cur from benef v payer fp fee ops Hfee. intros. edestruct (domain_send_facts payer fp fee Hfee) as [_ [_ C]]; eauto. Qed.
+Proof. exact domain_send_authority. Qed.
 Print Assumptions C03_debit_needs_authority_domain_send.
 
 (* WITHDRAW_REWARD: takes from the reward pool (positive amount) or from the SIGNER (negative amount): authorised either way *)
 Theorem C03_debit_needs_authority_withdraw_reward : forall known cur signer rpool v payer fp fee ops, 0 <= fee ->
   effect_withdraw_reward known cur signer rpool v = Some ops -> takes_only_from (ops ++ fee_ops payer fp fee) [signer; rpool; payer].
-Proof. intros known cur signer rpool v payer fp fee ops Hfee H. destruct (withdraw_reward_facts payer fp fee Hfee _ _ _ _ _ _ H) as [_ [B _]]. exact B. Qed.
+Proof. exact withdraw_reward_authority. Qed.
 Print Assumptions C03_debit_needs_authority_withdraw_reward.
-(* PROPOSAL_FUND: for every amount (a negative one CREDITS the funder) only the funder / payer is taken from *)
-Theorem C03_debit_needs_authority_proposal_fund : forall known cur f prop v payer fp fee ops, 0 <= fee ->
-  effect_proposal_fund known cur f prop v = Some ops -> takes_only_from (ops ++ fee_ops payer fp fee) [f; payer].
-Proof. intros known cur f prop v payer fp fee ops Hfee H. destruct (proposal_fund_facts payer fp fee Hfee _ _ _ _ _ _ H) as [_ [B _]]. exact B. Qed.
-Print Assumptions C03_debit_needs_authority_proposal_fund.
 
-(* PROPOSAL_WITHDRAW_FUNDS: PARTIAL - outside the trigger C03.withdraw_funds_negative (amount < 0) only the funder is taken from *)
-Definition trig_withdraw_funds_negative (v : Z) : bool := v <? 0.
-Theorem C03_debit_needs_authority_proposal_withdraw_partial : forall known cur f b prop v payer fp fee ops, 0 <= fee ->
-  trig_withdraw_funds_negative v = false ->
-  effect_proposal_withdraw known cur f b prop v = Some ops -> takes_only_from (ops ++ fee_ops payer fp fee) [f; payer].
-Proof.
-  intros known cur f b prop v payer fp fee ops Hfee T H. destruct (proposal_withdraw_facts payer fp fee Hfee _ _ _ _ _ _ _ H) as [_ C].
-  apply C. apply Z.ltb_ge. exact T.
-Qed.
-Print Assumptions C03_debit_needs_authority_proposal_withdraw_partial.
-(* closed witness (reproduced on the real code: findings/C03_withdraw_funds_negative.json): funder 1 signs, beneficiary 2 pays *)
+(* PROPOSAL_WITHDRAW_FUNDS is FULL since /repo 7960770.  The former refutation witness (finding C03.withdraw_funds_negative,
+   fixed): funder 1 signs, beneficiary 2 is named, amount -5 - rejected now, the beneficiary keeps its holdings *)
 Definition l_w : gmap key Z := ladd (ladd ∅ (bal 1 0) 1000) (bal 2 0) 30.
-Theorem C03_debit_needs_authority_refuted_proposal_withdraw : exists v ops, trig_withdraw_funds_negative v = true /\
-  effect_proposal_withdraw true 0 1 2 7 v = Some ops /\
-  holdings 2 0 (run_tx l_w (ops ++ fee_ops 1 9 1)) < holdings 2 0 l_w /\ ~ In 2%N [1%N; 1%N].
-Proof.
-  exists (-5), [Burn (mk 1 B_PROPFUND 0 7) (-5); Mint (bal 2 0) (-5)]. vm_compute.
-  repeat split; auto. intros [H|[H|[]]]; discriminate H.
-Qed.
+Example C03_former_witness_proposal_withdraw_rejected :
+  effect_proposal_withdraw true 0 1 2 7 (-5) = None /\
+  holdings 2 0 (run_tx l_w (default [] (tx_ops (effect_proposal_withdraw true 0 1 2 7 (-5)) 1 9 1))) = holdings 2 0 l_w /\
+  debited (default [] (tx_ops (effect_proposal_withdraw true 0 1 2 7 5) 1 9 1)) = [1%N; 1%N].
+Proof. vm_compute. auto. Qed.
 
 (* an account outside [who] keeps its holdings *)
 Theorem C03_others_keep_holdings : forall a c l ops who, takes_only_from ops who -> ~ In a who -> holdings a c l <= holdings a c (run_tx l ops).
 Proof. exact takes_only_holdings. Qed.
 Print Assumptions C03_others_keep_holdings.
+
+(* the guilty-verdict hook takes from the guilty validator's STAKE ADDRESS only (the exception named in the property) *)
+Theorem C03_penalty_debits_the_guilty_stake_account : forall (l : gmap key Z) (stake val bounty : N) (pct dec bpct bdec : Z),
+  0 <= val_total l val -> 0 <= pct -> 0 < dec -> 0 <= bpct <= bdec -> 0 < bdec ->
+  no_creation (penalty_ops l stake val bounty pct dec bpct bdec) /\ credits_ok (penalty_ops l stake val bounty pct dec bpct bdec) /\
+  takes_only_from (penalty_ops l stake val bounty pct dec bpct bdec) [stake].
+Proof. exact penalty_ops_facts. Qed.
+Print Assumptions C03_penalty_debits_the_guilty_stake_account.
 
 (* ---------------- the three maturity hooks never change anybody's holdings ---------------- *)
 Theorem C03_maturity_neutral_undelegation : forall a c (l : gmap key Z) h,
